@@ -26,7 +26,7 @@ grep -v "^ok\|no test files" "$log.suite" | head -20 >>"$log"
 dest=$(grep -oE '[A-Za-z0-9_./-]+_test\.go' "$src/DEMO.md" | grep / | head -1)
 if [ -z "$dest" ]; then res "RESULT $name: cannot find demo placement in DEMO.md (suite=$suite)"; exit 1; fi
 demo="$src/demo_test.go"; [ -f "$demo" ] || demo=$(ls "$src"/*_test.go 2>/dev/null | head -1)
-cp "$demo" "$wt/$dest" || { res "RESULT $name: cannot place demo"; exit 1; }
+mkdir -p "$wt/$(dirname "$dest")"; cp "$demo" "$wt/$dest" || { res "RESULT $name: cannot place demo"; exit 1; }
 pkg="./$(dirname "$dest")/"
 if go test -vet=off -count=1 $tagarg "$pkg" >"$log.with" 2>&1; then with=pass; else with=FAIL; fi
 git apply -R "$src/patch.diff"
